@@ -569,10 +569,19 @@ def suspend_monitor(ctx, info, res):
                                   s["tick"], e["ctx"], X, e["frame"], a, M, why),
                               lambda: {"tick": s["tick"], "event": {k: e[k] for k in ("framer", "frame", "ctx", "tag")}, "aux": a, "main": [X, M]})
                 if completed and below and not later_trans and not lost:
-                    rec_below = [e for j, e in enumerate(evs) if e["framer"] == X and e["frame"] in below and e["ctx"] == "recur" and j > last_a]
-                    ctx.check(len(rec_below) == len(below), "suspended-frames-did-not-resume-same-tick",
+                    # the frames that resume: all below M, or down to the main frame of a lower conditional aux that is
+                    # still running (frames below that one stay suspended by it)
+                    resume = below
+                    for bi, fname in enumerate(below):
+                        if any(x2 == X and m2 == fname and post.get(a2, {}).get("actives") and not post[a2]["done"]
+                               and post[a2]["main"] == [X, m2] for (x2, m2, a2) in conds):
+                            resume = below[:bi + 1]
+                            ctx.hit("resumed_down_to_lower_running_aux")
+                            break
+                    rec_below = [e for j, e in enumerate(evs) if e["framer"] == X and e["frame"] in resume and e["ctx"] == "recur" and j > last_a]
+                    ctx.check(len(rec_below) == len(resume), "suspended-frames-did-not-resume-same-tick",
                               "tick %d: conditional aux %s completed but recur actions of %s ran for %s only" % (
-                                  s["tick"], a, below, [e["frame"] for e in rec_below]), lambda: {"tick": s["tick"], "aux": a, "main": [X, M]})
+                                  s["tick"], a, resume, [e["frame"] for e in rec_below]), lambda: {"tick": s["tick"], "aux": a, "main": [X, M]})
                 if now and not early:
                     late = [j for j in own_fx if a_idx and j > a_idx[0]]
                     ctx.check(not late, "later-clause-not-skipped-while-aux-running",
